@@ -293,10 +293,9 @@ func (r *TypeClassSummonContext) lookupTypeClassInstanceLocalDeclared(ctx Curren
 
 	f := req.Type
 
-	scope := ctx.workingScope
-	if req.TypeClass.Id() != ctx.tc.TypeClass.Id() {
-		scope = r.tcCache.GetLocal(ctx.working.Package(), req.TypeClass)
-	}
+	// always the current local scope: ctx.workingScope is a snapshot taken when the derive
+	// started and does not contain instances scheduled since (recursive=true)
+	scope := r.tcCache.GetLocal(ctx.working.Package(), req.TypeClass)
 	itr := seq.Iterator(seq.FlatMap(name, func(v string) fp.Seq[string] {
 		if f.Pkg != nil && ctx.working.Path() != f.Pkg.Path() {
 			return []string{
@@ -1883,6 +1882,12 @@ func (r *TypeClassSummonContext) summonRequired(ctx CurrentContext, req metafp.R
 			if !r.tcCache.IsWillGenerated(tc) {
 				r.recursiveGen = append(r.recursiveGen, tc)
 				r.tcCache.WillGenerated(tc)
+			}
+			// the scheduled instance is now a local one: resolve again, so that the argument
+			// list is that of the generated function (a generic instance takes no argument for
+			// a type parameter it does not use)
+			if again := r.lookupTypeClassInstance(ctx, req); again.target.IsRight() {
+				return r.exprTypeClassInstance(ctx, again)
 			}
 			return r.exprTypeClassInstance(ctx, result)
 		}
